@@ -61,7 +61,7 @@ CHECKS = {
    "DESIGN.md §4 C12", "E1 simnet"),
  "C13": ("exploration",
    "runtime monitor: dial attempts read off the fabric tap over minutes-hours of virtual time",
-   "Class A: all High peers black-holed, never-dial entries present; attempts (first Initial per connection) checked for who/rotation/backoff spacing/in-flight cap/keeps-dialing bounds. Class B: reachable High peers; bounded success, re-dial after loss, recovery after k failures, no dial while connected; explicit application dials are never counted against the background in-flight cap; multi-address peers rotate over their addresses; in both classes the node may hold connections to parties outside its High table (strangers, explicit dials, Allowed entries), which must change nothing.",
+   "Class A: all High peers black-holed, never-dial entries present; attempts (first Initial per connection) checked for who/rotation/backoff spacing/in-flight cap/keeps-dialing bounds. Class B: reachable High peers; bounded success, re-dial after loss, recovery after k failures, no dial while connected; explicit application dials are never counted against the background in-flight cap; multi-address peers rotate over their addresses; in both classes the node may hold connections to parties outside its High table (strangers, explicit dials, Allowed entries), which must change nothing. Class A may contain one more High peer whose table entry is edited at run time (removed/demoted, re-inserted): no dial while out, rotation and back-off continue.",
    "Liveness as the bounded-progress bounds of the statement; tick jitter included in bounds.",
    "DESIGN.md §4 C13", "E1 simnet"),
  "C14": ("exploration",
